@@ -1273,13 +1273,13 @@ def P13(p):
             yield "inner-ifndef", ap
 
 
-@op("P14", ("PREPROC_BAD_ENDIF", "PREPROC_BAD_ELSE"), ("c",))
+@op("P14", ("PREPROC_BAD_ENDIF", "PREPROC_BAD_ELSE", "PREPROC_BAD_ELIF"), ("c",))
 def P14(p):
     for i, ln in enumerate(p.lines):
         if ln.kind in ("include", "define") and ln.info.get("ppdepth") == 0:
-            for word in ("endif", "else"):
+            for word in ("endif", "else", "elif"):
                 def ap(q, i=i, word=word):
-                    q.lines.insert(i + 1, Line([Lx("#", "hash"), Lx(word, "pp")], "endif", 0, -1))
+                    q.lines.insert(i + 1, Line([Lx("#", "hash"), Lx(word, "pp")] + ([SP(), Lx("ZZ_A", "id")] if word == "elif" else []), "endif", 0, -1))
                     return i + 1
                 yield word, ap
             break
@@ -1514,3 +1514,23 @@ def O12(p):
                                 del q.lines[i].lex[k - 1]
                             return i
                         yield "after-paren-ident:" + which, ap
+
+
+@op("F13", "MISSING_TAB_FUNC", ("c",))
+def F13(p):
+    for i, ln in enumerate(p.lines):
+        if ln.kind == "funchead":
+            for k, x in enumerate(ln.lex):
+                if "func-tab" in x.tags:
+                    if "ptr-func" in ln.lex[k + 1].tags:
+                        def ap(q, i=i, k=k):
+                            del q.lines[i].lex[k]          # char*ft_x(void)
+                            return i
+                        yield "pointer-glued", ap
+
+                    def ap2(q, i=i, k=k):
+                        lex = q.lines[i].lex
+                        q.lines[i].lex = lex[:k]           # the return type alone on its line
+                        q.lines.insert(i + 1, Line(lex[k + 1:], "cont", 0, q.lines[i].fn))
+                        return i
+                    yield "name-on-next-line", ap2
